@@ -9,11 +9,11 @@ case "$cmd" in
   create)
     mkdir -p "$U"
     git -C /repo worktree add --detach "$U/repo" HEAD >/dev/null
-    rsync -a --exclude harness/target --exclude .git --exclude replays --exclude .locks /verif/ "$U/verif/"
+    rsync -a --exclude "harness/target*" --exclude .git --exclude replays --exclude .locks /verif/ "$U/verif/"
     if [ -d /verif/harness/target ]; then cp -al /verif/harness/target "$U/verif/harness/target" 2>/dev/null || cp -a /verif/harness/target "$U/verif/harness/target"; fi
     echo "$U" ;;
   sync)
-    rsync -a --exclude harness/target --exclude .git --exclude replays --exclude .locks /verif/ "$U/verif/"
+    rsync -a --exclude "harness/target*" --exclude .git --exclude replays --exclude .locks /verif/ "$U/verif/"
     (cd "$U/repo" && git checkout -q --detach "$(git -C /repo rev-parse HEAD)" 2>/dev/null || true)
     echo "$U" ;;
   remove)
